@@ -67,6 +67,18 @@ static void use_sandbox(int t, sbx_t& sb, const char* tag)
   int r = sb.invoke_sandbox_function(call_cb_n, cb, 10 * t, 1).UNSAFE_unverified();
   obs.push_back(std::string(tag) + ":invoke=" + std::to_string(r));
   cb.unregister();
+  // app-pointer tokens: the table is per sandbox object, so the tokens a thread gets are those of its solo run
+  {
+    static int app_objs[vs::kMaxT][2];
+    auto a1 = sb.get_app_pointer(&app_objs[t][0]);
+    auto a2 = sb.get_app_pointer(&app_objs[t][1]);
+    int* b1 = sb.lookup_app_ptr(a1.to_tainted());
+    int* b2 = sb.lookup_app_ptr(a2.to_tainted());
+    obs.push_back(std::string(tag) + ":app-tokens=" + std::to_string((uint64_t)a1.UNSAFE_sandboxed(sb)) + "," + std::to_string((uint64_t)a2.UNSAFE_sandboxed(sb)) +
+                  ",lookup=" + (b1 == &app_objs[t][0] && b2 == &app_objs[t][1] ? "own-objects" : "OTHER"));
+    a1.unregister();
+    a2.unregister();
+  }
   sb.free_in_sandbox(pp);
   sb.free_in_sandbox(p);
 }
